@@ -494,7 +494,9 @@ pub struct VmSt {
 }
 impl PartialEq for VmSt {
     fn eq(&self, o: &VmSt) -> bool {
-        self.key == o.key && self.depth == o.depth
+        // the derived equality of the real state as well: a field the observation does not show (one a
+        // change might add) must not let two different machine states be merged
+        self.key == o.key && self.depth == o.depth && self.real == o.real
     }
 }
 impl Eq for VmSt {}
